@@ -143,6 +143,15 @@ func (im *Impl) flatten1(e ast.Expr, subject, key types.Object) []strPart {
 				return []strPart{{Field: ".", Wrap: fn.Name()}}
 			}
 		}
+		// fmt.Sprintf with a constant format of plain verbs: %s is the argument itself, %q what strconv.Quote
+		// gives for a string, %d what strconv.Itoa gives for an int
+		if fn != nil && fn.Pkg() != nil && fn.Pkg().Path() == "fmt" && fn.Name() == "Sprintf" && len(call.Args) >= 1 && !call.Ellipsis.IsValid() {
+			if tv, ok := im.info().Types[call.Args[0]]; ok && tv.Value != nil && tv.Value.Kind() == constant.String {
+				if parts, ok := im.sprintfParts(constant.StringVal(tv.Value), call.Args[1:], subject, key); ok {
+					return parts
+				}
+			}
+		}
 		if fn != nil && fn.Name() == "String" && len(call.Args) == 0 {
 			if se, ok := call.Fun.(*ast.SelectorExpr); ok {
 				if f, ok := im.fieldOf(se.X, subject); ok {
@@ -152,6 +161,96 @@ func (im *Impl) flatten1(e ast.Expr, subject, key types.Object) []strPart {
 		}
 	}
 	return []strPart{{Other: exprString(e)}}
+}
+
+func (im *Impl) sprintfParts(format string, args []ast.Expr, subject, key types.Object) ([]strPart, bool) {
+	var out []strPart
+	lit := ""
+	flush := func() {
+		if lit != "" {
+			out = append(out, strPart{Const: lit, IsConst: true})
+			lit = ""
+		}
+	}
+	basicOf := func(e ast.Expr) types.BasicInfo {
+		if tv, ok := im.info().Types[e]; ok && tv.Type != nil {
+			if b, ok := tv.Type.Underlying().(*types.Basic); ok {
+				return b.Info()
+			}
+		}
+		return 0
+	}
+	wrapped := func(arg ast.Expr, wrap string) ([]strPart, bool) {
+		arg = unparen(arg)
+		if conv, ok := arg.(*ast.CallExpr); ok && len(conv.Args) == 1 {
+			if tv, ok := im.info().Types[conv.Fun]; ok && tv.IsType() {
+				arg = unparen(conv.Args[0])
+			}
+		}
+		if f, ok := im.fieldOf(arg, subject); ok {
+			return []strPart{{Field: f, Wrap: wrap}}, true
+		}
+		if im.isObj(arg, subject) {
+			return []strPart{{Field: ".", Wrap: wrap}}, true
+		}
+		return nil, false
+	}
+	n := 0
+	for i := 0; i < len(format); i++ {
+		c := format[i]
+		if c != '%' {
+			lit += string(c)
+			continue
+		}
+		i++
+		if i >= len(format) {
+			return nil, false
+		}
+		if format[i] == '%' {
+			lit += "%"
+			continue
+		}
+		if n >= len(args) {
+			return nil, false
+		}
+		arg := args[n]
+		n++
+		switch format[i] {
+		case 's':
+			if basicOf(arg)&types.IsString == 0 {
+				return nil, false
+			}
+			flush()
+			out = append(out, im.flatten1(arg, subject, key)...)
+		case 'q':
+			if basicOf(arg)&types.IsString == 0 {
+				return nil, false
+			}
+			p, ok := wrapped(arg, "Quote")
+			if !ok {
+				return nil, false
+			}
+			flush()
+			out = append(out, p...)
+		case 'd':
+			if tv, ok := im.info().Types[arg]; !ok || tv.Type == nil || !types.Identical(tv.Type.Underlying(), types.Typ[types.Int]) {
+				return nil, false
+			}
+			p, ok := wrapped(arg, "Itoa")
+			if !ok {
+				return nil, false
+			}
+			flush()
+			out = append(out, p...)
+		default:
+			return nil, false // flags, widths and other verbs: not a plain rendering
+		}
+	}
+	if n != len(args) {
+		return nil, false
+	}
+	flush()
+	return out, true
 }
 
 type dumpEvent struct {
